@@ -279,9 +279,13 @@ fn gen_c09(r: &mut Rng, idx: u64) -> Vec<Op> {
     ops.push(Op::InitArea { start: data, len: dlen, seed: r.next() | 1, named: false });
     ops.push(Op::InitArea { start: nops, len: 64, seed: 5, named: false }); // seed%5==0: filled with NOPs
     ops.push(Op::InitZero { start: stack, len: 256, named: true });
+    // an area directly behind the data area (and one directly behind the stack), each under its own mask
+    let adj = data + dlen;
+    ops.push(Op::InitArea { start: adj, len: 64, seed: r.next() | 1, named: true });
+    ops.push(Op::InitArea { start: stack + 256, len: 64, seed: r.next() | 1, named: false });
     let mut cells: Vec<(u32, u32)> = Vec::new(); // (mask, path)
     for mask in 0..8u32 {
-        for path in 0..14u32 {
+        for path in 0..17u32 {
             cells.push((mask, path));
         }
     }
@@ -349,6 +353,44 @@ fn gen_c09(r: &mut Rng, idx: u64) -> Vec<Op> {
                 let code_off = r.below(t.code.len() as u64 - 16);
                 ops.push(Op::GuestStore { size: *r.pick(&[1u32, 2, 4, 8]), addr: 0x50_0000 + code_off, val: hex(0x41) });
                 ops.push(Op::WriteBytes { addr: 0x50_0000 + code_off, len: 4, seed: r.next() });
+            }
+            14 => {
+                // a store that starts in the (writable) data area and runs into the neighbour under `mask`
+                let size = *r.pick(&[2u32, 4, 8, 16]);
+                let back = r.range(1, size as u64 - 1);
+                ops.push(Op::Prot { start: data, prot: 3 });
+                ops.push(Op::Prot { start: adj, prot: mask });
+                match r.below(4) {
+                    0 => ops.push(Op::WriteBytes { addr: adj - back, len: size as u64, seed: r.next() }),
+                    1 => ops.push(Op::GuestStore { size, addr: adj - back, val: hex(r.next() as u128) }),
+                    2 => ops.push(Op::GuestRmw { size: size.min(8), addr: adj - back.min(size.min(8) as u64 - 1), val: hex(r.next() as u128 & 0xff) }),
+                    _ => ops.push(Op::ReadBytes { addr: adj - back, len: size as u64 }),
+                }
+                ops.push(Op::Prot { start: adj, prot: 3 });
+            }
+            15 => {
+                // the other way round: the data area is under `mask`, the neighbour is ordinary memory
+                let size = *r.pick(&[2u32, 4, 8, 16]);
+                let back = r.range(1, size as u64 - 1);
+                ops.push(Op::Prot { start: data, prot: mask });
+                ops.push(Op::Prot { start: adj, prot: 3 });
+                if r.chance(1, 2) {
+                    ops.push(Op::WriteBytes { addr: adj - back, len: size as u64, seed: r.next() });
+                } else {
+                    ops.push(Op::GuestStore { size, addr: adj - back, val: hex(r.next() as u128) });
+                }
+            }
+            16 => {
+                // implicit stack store at the very top of the stack area, neighbour under `mask`
+                ops.push(Op::Prot { start: stack, prot: 3 });
+                ops.push(Op::Prot { start: stack + 256, prot: mask });
+                let rsp = stack + 256 - *r.pick(&[0u64, 4, 8]);
+                if r.chance(1, 2) {
+                    ops.push(Op::GuestPush { rsp, val: r.next() });
+                } else {
+                    ops.push(Op::GuestCall { rsp });
+                }
+                ops.push(Op::Prot { start: stack + 256, prot: 3 });
             }
             _ => {
                 ops.push(Op::Prot { start: stack, prot: mask });
